@@ -10,6 +10,7 @@ for src in sorted(glob.glob("/tmp/seed/out/%s-C*/[ab]" % prefix)):
     if not tests:
         print(src, "NO DEMO"); continue
     pkgs = set()
+    bypkg = {}
     for t in tests:
         m = re.search(r"^package (\w+)", open(t).read(), re.M)
         pk = m.group(1)
@@ -17,8 +18,19 @@ for src in sorted(glob.glob("/tmp/seed/out/%s-C*/[ab]" % prefix)):
             readme = open(src + "/README.md").read() if os.path.exists(src + "/README.md") else ""
             pk = "cmd/thermal-writer" if readme.count("thermal-writer") > readme.count("cmd/thermal-recorder") else "cmd/thermal-recorder"
         pkgs.add(pk)
+        bypkg.setdefault(pk, []).append(t)
     if len(pkgs) != 1:
-        print(src, "MULTI-PACKAGE DEMO", pkgs); continue
+        # demonstrations in several packages: confirm with those of one package (library package preferred)
+        pk = sorted(pkgs, key=lambda x: (x.startswith("cmd/"), x))[0]
+        split = src + "-split"
+        os.makedirs(split, exist_ok=True)
+        for f in ["patch.diff", "README.md"]:
+            if os.path.exists(src + "/" + f):
+                subprocess.run(["cp", src + "/" + f, split + "/"])
+        for t in bypkg[pk]:
+            subprocess.run(["cp", t, split + "/"])
+        print(src, "MULTI-PACKAGE DEMO", pkgs, "-> confirming with", pk)
+        src, pkgs = split, {pk}
     # already ingested?
     done = False
     for d in glob.glob(V + "/seeded/%s-*" % pid):
